@@ -38,11 +38,13 @@ func genCandidate(r vlib.Rnd) *vlib.Project {
 		}
 		fallthrough
 	case 5:
-		switch r.Intn(3) {
+		switch r.Intn(4) {
 		case 0:
 			return vlib.SingleFile(genAllOfFamily(r))
 		case 1:
 			return vlib.SingleFile(genPathFamily(r))
+		case 2:
+			return vlib.SingleFile(genOrFamily(r))
 		}
 		return vlib.SingleFile(genTagSoup(r))
 	case 6:
@@ -207,6 +209,58 @@ func genAllOfFamily(r vlib.Rnd) []byte {
 	fmt.Fprintf(&sb, "POST /a/{id}\n  Request @t%d\n  200 @t%d\n  404 [@t%d]\n", r.Intn(n), n-1, r.Intn(n))
 	if vlib.Chance(r, 1, 3) {
 		fmt.Fprintf(&sb, "  Path\n    { // {allOf: \"@t%d\"}\n      \"id\": 1\n    }\n", r.Intn(n))
+	}
+	return []byte(sb.String())
+}
+
+// genOrFamily: one to three types whose values carry an "or" rule over scalar type names, type references (to themselves,
+// to each other, to undefined names) and inline {type: ...} alternatives, used by a response.  Most of these are rejected;
+// accepted or rejected, the outcome has to be the same every time (C06) and serialisable when accepted (C04).
+func genOrFamily(r vlib.Rnd) []byte {
+	var sb strings.Builder
+	sb.WriteString("JSIGHT 0.3\n\n")
+	n := 1 + r.Intn(3)
+	alt := func() string {
+		t := fmt.Sprintf("@o%d", r.Intn(n+1)) // n = an undefined name, rarely
+		if vlib.Chance(r, 3, 4) {
+			t = fmt.Sprintf("@o%d", r.Intn(n))
+		}
+		switch r.Intn(8) {
+		case 0:
+			return "\"integer\""
+		case 1:
+			return "\"string\""
+		case 2:
+			return "{type: \"integer\"}"
+		case 3:
+			return "{type: \"string\", minLength: 1}"
+		case 4:
+			return "{type: \"" + t + "\"}"
+		case 5:
+			return "\"boolean\""
+		default:
+			return "\"" + t + "\""
+		}
+	}
+	for i := 0; i < n; i++ {
+		k := 2 + r.Intn(2)
+		var aa []string
+		for j := 0; j < k; j++ {
+			aa = append(aa, alt())
+		}
+		val := vlib.Pick(r, []string{"1", "\"s\"", "true", "1", fmt.Sprintf("@o%d", r.Intn(n))})
+		switch r.Intn(4) {
+		case 0:
+			fmt.Fprintf(&sb, "TYPE @o%d\n  {\n    \"p\": %s // {or: [%s]}\n  }\n\n", i, val, strings.Join(aa, ", "))
+		case 1:
+			fmt.Fprintf(&sb, "TYPE @o%d\n  [ // {optional: true}\n    %s // {or: [%s]}\n  ]\n\n", i, val, strings.Join(aa, ", "))
+		default:
+			fmt.Fprintf(&sb, "TYPE @o%d\n  %s // {or: [%s]}\n\n", i, val, strings.Join(aa, ", "))
+		}
+	}
+	fmt.Fprintf(&sb, "GET /o\n  200 @o%d\n", r.Intn(n))
+	if vlib.Chance(r, 1, 3) {
+		fmt.Fprintf(&sb, "  404\n    1 // {or: [%s, %s]}\n", alt(), alt())
 	}
 	return []byte(sb.String())
 }
